@@ -511,7 +511,7 @@ def configs(tier):
             (xbnds_gap, dict(scps=[1, 1, 2, 2, 0, 1])), (xbnds_gap, dict(scps=[3, 0, 0, 3, 3, 3], pad=0))]
     if tier == 'thorough':
         out += [(xbnds_rodded, dict(n_ring=5, n_duct=3)), (xbnds_unrodded, dict(model='6node'))]
-        out += [(whole, dict(n=4, m=3)), (whole, dict(n=3, m=5)), (whole, dict(n=4, m=4))]
+        out += [(whole, dict(n=4, m=3)), (whole, dict(n=3, m=5))]
     return out
 
 
